@@ -686,6 +686,8 @@ class Emitter:
                     out.extend(Line('', kind='blank') for _ in range(nblank))
                     had_blank = True
             out.extend(lines)
+            if nd.kind == 'custom' and any(l.text == '' for l in lines):
+                had_blank = True      # the blank lines of a literal block separate blocks of their own
             prev = nd
         self.had_blank = had_blank
         return out
@@ -800,6 +802,10 @@ class Emitter:
             lines.append(Line(fmt(r), kind='table-row'))
         return lines
 
+    def e_custom(self, nd, ctx):
+        """A literal block (boundary strata of C03): fixed lines with a fixed expected HTML, always set off by blank lines."""
+        return [Line(l, kind='custom') for l in nd.lines]
+
     def e_html(self, nd, ctx):
         ind = self.ind(ctx) if nd.cond in (6, 7) else ''
         if ind:
@@ -875,6 +881,8 @@ class Emitter:
             return [Line(ind + marker, kind='item-empty')]
         inner = self.blocks(item.blocks, 'item', tight=lst.tight)
         item.had_blank = self.had_blank
+        if inner and inner[0].text.startswith(' ') and not item.blank_start:
+            raise AssertionError('first line of item content starts with a space (would change the content offset, 5.2)')
         pad = 1 if opt.canonical else item.pad
         out = []
         if item.blank_start:
@@ -948,6 +956,9 @@ def block_html(nd, tight=False):
         return '\n'.join(nd.lines)
     if k == 'refdef':
         return None
+    if k == 'custom':
+        import re
+        return re.sub(r'</?p>', '', nd.html) if tight else nd.html
     raise ValueError(k)
 
 
@@ -1090,7 +1101,7 @@ def emit(rng, opt, g, blocks, profile='full', leading_blank=None):
         leading_blank = rng.choice((0, 0, 0, 0, 1, 2)) if not opt.canonical else 0
     lines = [Line('', kind='blank') for _ in range(leading_blank)] + lines
     import re
-    hr = re.compile(r'^[> ]*(?:\d{1,9}[.)] +)*([-_*])(?: *\1){2,} *$')
+    hr = re.compile(r'^(?:[> ]|[-+*] +|\d{1,9}[.)] +)*([-_*])(?: *\1){2,} *$')
     for ln in lines:
         if ln.kind not in ('hr', 'fence-body', 'icode', 'html', 'setext-underline', 'table-delim') and hr.match(ln.text):
             raise AssertionError('a line of nested bullet markers reads as a thematic break (4.1)')
